@@ -516,6 +516,12 @@ pub fn angle<S: Lift, V: Sp<S, N>, const N: usize>(t: &mut Tape, cx: &mut Cx) ->
     if !near_abs(cx, g.f(), th, tol) {
         fail!("{}<{}>::angle_between a={:?} b={:?}: got {:?}, want {:?} (tolerance {:.3e})", V::NAME, S::NAME, a, b, g, th, tol);
     }
+    // the deprecated degrees form is the same angle in degrees ("Use to_degrees() on the value returned by angle_between() instead")
+    let gd = V::mk(a).k_angle_between_degrees(V::mk(b));
+    check!(cx, gd.f() >= 0.0 && gd.f() <= 180.0, "{}<{}>::angle_between_degrees a={:?} b={:?} = {:?} is not in [0, 180]", V::NAME, S::NAME, a, b, gd);
+    if !near_abs(cx, gd.f(), g.f().to_degrees(), 2.0 * tol.to_degrees() + 720.0 * S::eps()) {
+        fail!("{}<{}>::angle_between_degrees a={:?} b={:?}: got {:?}, but angle_between is {:?} rad = {:?} degrees", V::NAME, S::NAME, a, b, gd, g, g.f().to_degrees());
+    }
     let g2 = V::mk(b).k_angle_between(V::mk(a));
     if !near_abs(cx, g2.f(), g.f(), 2.0 * tol) {
         fail!("{}<{}>::angle_between is not symmetric: a={:?} b={:?}: {:?} vs {:?}", V::NAME, S::NAME, a, b, g, g2);
